@@ -907,7 +907,18 @@ func (env *Environment) runTasksAsHooks(hooksToTrigger task.Tasks) (errorMap map
 						continue
 					}
 
-					hookTimers[tid].Stop()
+					timer, hasTimer := hookTimers[tid]
+					if !hasTimer {
+						// We have given up on this hook already (it overran its timeout while other hooks of the
+						// same round are still being collected): its late report does not change the verdict.
+						log.WithField("partition", env.Id().String()).
+							WithField("taskId", tid).
+							WithField("task", thisHook.GetName()).
+							WithField("level", infologger.IL_Devel).
+							Warn("hook reported its termination after it had timed out")
+						continue
+					}
+					timer.Stop()
 					delete(hookTimers, tid)
 
 					if evt.ExitCode != 0 {
